@@ -18,6 +18,12 @@ CHECKS = {
         text='Theorem C02_census: for each of the seven counter models and every non-constant history all clauses of the census predicate hold (table = histogram, ranges in (0, max-min], end points are reversals, totals bounded / exact, whole cycles only, range-pair leaves at most one range). The seven models are tied to /repo/src by exact correspondence in both output modes; the same predicate is evaluated on the implementation output.',
         note='Trusted: Lean kernel + standard axioms; hand-written list models of the seven counters (linked-index bookkeeping modelled as stack / list deletion) tied by sampled + small-scope-exhaustive exact correspondence; exact arithmetic on the dyadic grid stands for binary64; aggregation rounding to 8 decimals is the identity on the grid.',
         ref='§5 C02'),
+    'C05': dict(
+        engine='list',
+        technique='Lean 4 proof (per-segment window = strict crossings at untouched levels; reversal-sequence peaks = extrema of the de-plateaued history) + exact model/implementation correspondence',
+        text='Theorems for every history, reference and level set: the level-crossing model reports, at each requested level no reversal touches, exactly the upward (level >= ref) or downward (level < ref) crossings of the reversal polyline, only requested levels with positive counts, events segment by segment; the peak-count model lists exactly the local maxima >= ref and minima < ref of the de-plateaued history in time order and its table is their histogram. Models tied to /repo/src by exact correspondence (default and user level sets); the same predicates run on the implementation output. Strict time order inside one falling segment is a recorded known finding.',
+        note='Trusted: Lean kernel + standard axioms; hand-written models (np.searchsorted windows modelled as filters over the sorted distinct level list; default grid floor(min)..ceil(max) modelled by floor division on the grid) tied by sampled exact correspondence; dyadic-grid arithmetic stands for binary64.',
+        ref='§5 C05'),
 }
 
 NOT_YET = {}
